@@ -7,6 +7,7 @@ interleaving of the two directions.
 import TLX.Props.C01Pipeline
 import TLX.Props.C05
 import TLX.Spec.TlsConnection
+import TLX.Props.C07
 set_option linter.unusedSimpArgs false
 namespace TLX.Lemmas.Capstone
 open TLX TLX.Reassembly
@@ -751,5 +752,47 @@ theorem run_noops (O : Session.Ops Dec) (m : Bool) (s : Session.St Dec) (l : Lis
     simp only [Session.run, List.foldl_cons]
     rw [h q (by simp)]
     exact ih (fun q' hq' => h q' (by simp [hq']))
+
+theorem handle_clientHello (O : Session.Ops Dec) (s0 : Session.St Dec) (h0 : s0.srvCC = false ∧ s0.cliCC = false)
+    (rv : Bytes) (hrv : rv.length = 2) (ch : Spec.TlsHello.ClientHello) (hch : ch.WellFormed) (car : List Nat) :
+    Session.handleRecord O false s0 ⟨record 22 rv (Spec.TlsHello.encodeClientHello ch), car⟩ false
+      = Session.clientHello s0 ⟨record 22 rv (Spec.TlsHello.encodeClientHello ch), car⟩ := by
+  obtain ⟨_, rest, hd⟩ := clientHello_layout ch hch
+  unfold Session.handleRecord Session.handleRecordRaw
+  rw [record_typ]
+  simp only [if_true, Session.handshakeRecord, h0.1, h0.2, Bool.or_self, Bool.false_eq_true, if_false,
+    record_body 22 rv _ car hrv]
+  rw [hd]
+  simp only [if_true, Session.Out.st]
+  rfl
+
+theorem plainOf_clear_prefix (cl : List Bytes) (r : List DirEv) :
+    Spec.TlsConnection.plainOf (cl.map DirEv.clear ++ DirEv.ccs :: r) = Spec.TlsConnection.plainOf r := by
+  induction cl with
+  | nil => rfl
+  | cons b cl ih => simpa [Spec.TlsConnection.plainOf] using ih
+
+theorem sendDir_length (P : Prims) (L : SealLaws P) (cls : CipherClass) (ver : Bytes) (sd : SDir) (l : List DirEv) :
+    (sendDir P L cls ver sd l).length = l.length := by
+  induction l generalizing sd with
+  | nil => rfl
+  | cons e r ih => rw [sendDir_cons, List.length_cons, ih, List.length_cons]
+
+theorem length_by_dir (M : List (Session.Rec × Bool)) :
+    M.length = (M.filter fun q => q.2 == false).length + (M.filter fun q => q.2 == true).length := by
+  induction M with
+  | nil => rfl
+  | cons q M ih =>
+    obtain ⟨r, d⟩ := q
+    cases d <;> simp [List.filter_cons, ih] <;> omega
+
+theorem cost_length (l : List DirEv) (h : ∀ e ∈ l, ∀ ms f, e ≠ DirEv.hs13 ms f) : cost l = l.length := by
+  induction l with
+  | nil => rfl
+  | cons e r ih =>
+    have := ih (fun e' he' => h e' (by simp [he']))
+    cases e with
+    | hs13 ms f => exact absurd rfl (h _ (by simp) ms f)
+    | _ => simp [cost, this]; omega
 
 end TLX.Lemmas.Capstone
